@@ -684,6 +684,18 @@ class TriInterp:
             v = self.folder.eval(e, {}, mod)
             return [(path, self.lift(v))]
         if isinstance(e, ast.Attribute):
+            # a constant of another module (`command.MASK_VALUE`)
+            r_ = e
+            while isinstance(r_, ast.Attribute):
+                r_ = r_.value
+            if isinstance(r_, ast.Name) and r_.id not in path.env and \
+                    r_.id not in ("self", "cls"):
+                try:
+                    cv = self.folder.eval(e, {}, mod)
+                except Exception:
+                    cv = UNKNOWN
+                if cv is None or type(cv) in (int, str, bytes, bool, float):
+                    return [(path, V("const", cv))]
             res = []
             for (p, base) in self._ev(e.value, path, owner, outs):
                 res += self.attr(p, base, e.attr, owner, outs, e)
@@ -952,6 +964,16 @@ class TriInterp:
                     res.append((q, STR))
                 elif name == "append":
                     res.append((q, NONE))
+                elif name in ("get",) and base.kind == "constdict" and \
+                        args and args[0].kind == "const" and len(args) <= 2 \
+                        and (len(args) == 1 or args[1].kind == "const"):
+                    # a lookup in a folded table with a known key
+                    try:
+                        hit = args[0].val in base.val
+                    except TypeError:
+                        hit = False
+                    res.append((q, self.lift(base.val[args[0].val]) if hit
+                                else (args[1] if len(args) == 2 else NONE)))
                 elif name in ("get",):
                     res.append((q, UNK))
                 else:
